@@ -7,7 +7,7 @@ RESERVED = {"len", "mem", "readable", "writable", "wrote", "shift", "clear", "is
             "new", "empty", "filled", "default", "read_all", "slice", "splice", "view", "ret", "bind", "panic", "fit", "repeat"}
 
 
-def coq_ty(t, outs=0):
+def coq_ty(t, outs=()):
     def base(t):
         if t in ("usize", "u64", "u8", "int"):
             return "Z"
@@ -19,6 +19,10 @@ def coq_ty(t, outs=0):
             return "list Z"
         if t == ("view",):
             return "view"
+        if t == ("rb",):
+            return "rb"
+        if t[0] == "poll":
+            return "poll %s" % paren(base(t[1]))
         if t == ("range",):
             return "(Z * Z)"
         if t == ("selfty",):
@@ -37,8 +41,8 @@ def coq_ty(t, outs=0):
             return "ekind" if t[1] == "io" else "unit"
         raise Unsupported("no Coq type for %s" % (t,))
     b = base(t)
-    for _ in range(outs):
-        b = "(%s * list Z)" % b
+    for o in outs:
+        b = "(%s * %s)" % (b, base(o))
     return b
 
 
@@ -81,7 +85,7 @@ class Emit:
             binders = []
             for p in fn["params"]:
                 if p["name"] == "self":
-                    if not p.get("ref"):
+                    if not p.get("ref") and not p["ty"].replace(" ", "").startswith("Pin<"):
                         f.env["self"] = ("selfval",)
                     continue
                 ov = cfg.get("param_types", {}).get(p["name"])
@@ -94,7 +98,7 @@ class Emit:
                 if nm in RESERVED:
                     f.sub[nm] = nm + "_"
                     nm = nm + "_"
-                if ty == ("mslice",):
+                if ty in (("mslice",), ("rb",)):
                     f.outs.append(p["name"])
                 binders.append(s.param_binder(f, dict(p, name=nm), ty))
             rt = ret_ty(fn["ret"], generics)
@@ -104,7 +108,7 @@ class Emit:
             body = fn["body"]
             impl = "{R} " if "R" in generics and cfg.get("generic_R") else ""
             monad = cfg.get("monad", "MF")
-            rty = coq_ty(rt, len(f.outs))
+            rty = coq_ty(rt, [f.env[o] for o in f.outs])
             if cfg.get("ret_repr"):
                 rty = cfg["ret_repr"][1]
             if cfg.get("async"):
@@ -132,13 +136,17 @@ class Emit:
                 names = " ".join(b.split(":")[0].strip("( ") for b in binders)
                 s.out.append("Definition %s (fuel : nat) %s%s: %s (fueled %s) :=\n  loop_fuel fuel (%s_body %s).\n" % (coq_name, impl, " ".join(binders) + (" " if binders else ""), monad, paren(rty), coq_name, names))
             else:
-                c = simp(f.seq(body, 0, K(lambda a, t: f.do_return(a), cheap=True)))
+                c = simp(f.seq(body, 0, K(lambda a, t: f.do_return(a, t), cheap=True)))
                 s.out.append("Definition %s %s%s: %s %s :=\n  %s.\n" % (coq_name, impl, " ".join(binders) + (" " if binders else ""), monad, paren(rty), render(c)))
             s.report.append((label, "translated", coq_name))
             return rt
         except Unsupported as ex:
             s.out.append("(* %s: NOT TRANSLATED: %s *)\n" % (label, str(ex).replace("*)", "* )")))
             s.report.append((label, "unsupported", str(ex)))
+            return None
+        except Exception as ex:          # a shape the translator did not anticipate: refuse the function, never guess
+            s.out.append("(* %s: NOT TRANSLATED: translator error %s *)\n" % (label, repr(ex).replace("*)", "* )")))
+            s.report.append((label, "unsupported", "translator error " + repr(ex)))
             return None
 
 
@@ -267,7 +275,57 @@ def gen_tokio(tr, em):
     F = "fixed-buffer-tokio/src/lib.rs"
     em.translate_fn(F, "copy_once_from", "aco", cfg, self_like="AsyncFixedBuf")
     em.translate_fn(F, "read_frame", "arf", dict(cfg, ret_repr=("to_fr", "frame_res")), self_like="AsyncFixedBuf")
+    # impl AsyncRead / AsyncWrite for AsyncFixedBuf: `self.get_mut().0` is the inner FixedBuf
+    inner = Struct("AsyncFixedBuf", methods={
+        "read_and_copy_bytes": Sig("read_and_copy_bytes chk", "usize", hint="q"),
+        "write_bytes": Sig("write_bytes chk", ("res", "usize", ("err", "NotEnoughSpaceError")), hint="r")})
+    pcfg = {"struct": inner, "monad": "MF", "newtype": True, "param_types": {"_cx": ("skip",), "cx": ("skip",)}}
+    for nm, cn in (("poll_read", "afb_poll_read"), ("poll_write", "afb_poll_write"), ("poll_flush", "afb_poll_flush"), ("poll_shutdown", "afb_poll_shutdown")):
+        em.translate_fn(F, nm, cn, pcfg, trait="tokio::io::AsyncRead" if nm == "poll_read" else "tokio::io::AsyncWrite", self_like="AsyncFixedBuf")
     o.append("End G.\n")
+
+
+def gen_tokio_adapters(tr, em):
+    o = em.out
+    o.append("(* GENERATED by rs2v ast + vlib/translate.py from fixed-buffer-tokio/src/async_read_write_chain.rs and async_read_write_take.rs.  Do not edit. *)\n"
+             "From FB Require Import Sem.Base Sem.ReadBuf Model.Tokio.\nOpen Scope Z_scope.\n\nSection ACHAIN.\nContext {R1S RWS : Type}.\nVariable chk : bool.\n"
+             "Variable R1 : AsyncReader R1S.\nVariable R2 : AsyncReader RWS.\nVariable W2 : AsyncWriter RWS.\nNotation MA := (M (@acw R1S RWS)).\n")
+    PR = ("pr",)
+    def set_areader(s, r, krest):
+        if r["k"] == "Path" and r["path"] == ["None"]:
+            return Bind(None, Op("aset_reader_none"), krest())
+        raise Unsupported("self.reader = <not None>")
+    def poll_read_of(op):
+        def f(s, e, k, hint):
+            return s.args(e["args"], lambda av: s.call_sig(Sig(op, PR, world="prim", hint="q"), av, k, None, False))
+        return f
+    def coerce(v, t):
+        return "poll_of %s" % paren(v) if t == PR else v
+    chain = Struct("AsyncReadWriteChain",
+                   fields={"reader": ("aget_reader_is_some", set_areader, ("hasreader",))},
+                   fieldops={("read_writer", "poll_read"): poll_read_of("acall_rw R2"),
+                             ("read_writer", "poll_write"): collab_call("acall_rw_write W2", ("poll", ("res", "usize", ("err", "io")))),
+                             ("read_writer", "poll_flush"): collab_call("acall_rw_flush W2", ("poll", ("res", "unit", ("err", "io")))),
+                             ("read_writer", "poll_shutdown"): collab_call("acall_rw_shutdown W2", ("poll", ("res", "unit", ("err", "io"))))})
+    LIB[("readerref", "poll_read")] = lambda s, a, t, al, k, hint: poll_read_of("acall_reader R1")(s, {"args": al}, k, hint)
+    cfg = {"struct": chain, "monad": "MA", "param_types": {"cx": ("skip",), "_cx": ("skip",)}, "ret_coerce": coerce}
+    F = "fixed-buffer-tokio/src/async_read_write_chain.rs"
+    for trait, nm, cn in (("AsyncRead", "poll_read", "achain_poll_read"), ("AsyncWrite", "poll_write", "achain_poll_write"),
+                          ("AsyncWrite", "poll_flush", "achain_poll_flush"), ("AsyncWrite", "poll_shutdown", "achain_poll_shutdown")):
+        em.translate_fn(F, nm, cn, cfg, trait=trait)
+    o.append("End ACHAIN.\n\nSection ATAKE.\nContext {RWS : Type}.\nVariable chk : bool.\nVariable R2 : AsyncReader RWS.\nVariable W2 : AsyncWriter RWS.\nNotation MT := (M (@atw RWS)).\n")
+    take = Struct("AsyncReadWriteTake",
+                  fields={"remaining_bytes": ("aget_remaining", "aset_remaining", "u64")},
+                  fieldops={("read_writer", "poll_read"): poll_read_of("atcall_rw R2"),
+                            ("read_writer", "poll_write"): collab_call("atcall_rw_write W2", ("poll", ("res", "usize", ("err", "io")))),
+                            ("read_writer", "poll_flush"): collab_call("atcall_rw_flush W2", ("poll", ("res", "unit", ("err", "io")))),
+                            ("read_writer", "poll_shutdown"): collab_call("atcall_rw_shutdown W2", ("poll", ("res", "unit", ("err", "io"))))})
+    cfg = {"struct": take, "monad": "MT", "param_types": {"cx": ("skip",), "_cx": ("skip",)}, "ret_coerce": coerce}
+    F = "fixed-buffer-tokio/src/async_read_write_take.rs"
+    for trait, nm, cn in (("AsyncRead", "poll_read", "atake_poll_read"), ("AsyncWrite", "poll_write", "atake_poll_write"),
+                          ("AsyncWrite", "poll_flush", "atake_poll_flush"), ("AsyncWrite", "poll_shutdown", "atake_poll_shutdown")):
+        em.translate_fn(F, nm, cn, cfg, trait=trait)
+    o.append("End ATAKE.\n")
 
 
 def gen_escape(tr, em):
@@ -287,7 +345,7 @@ def main(ast_path, outdir):
     tr = Translator(ast)
     tr.reserved = RESERVED
     reports = {}
-    for name, gen in (("FbGen", gen_fb), ("DeframersGen", gen_deframers), ("AdaptersGen", gen_adapters), ("TokioGen", gen_tokio), ("EscapeGen", gen_escape)):
+    for name, gen in (("FbGen", gen_fb), ("DeframersGen", gen_deframers), ("AdaptersGen", gen_adapters), ("TokioGen", gen_tokio), ("TokioAdaptersGen", gen_tokio_adapters), ("EscapeGen", gen_escape)):
         em = Emit(tr)
         gen(tr, em)
         txt = "\n".join(em.out)
